@@ -317,6 +317,43 @@ theorem session_keys_survive_transport (c : Crypto) (hc : CryptoLaws c) (m : Met
   rw [if_pos hmagic] at h3
   exact ⟨blob, _, h1, h3, rfl⟩
 
+/-! ### no hidden state -/
+
+/-- The answer to a call does not depend on what was called before or after it (in particular not on
+an earlier successful decryption of the same blob with another key).  Trivial for the pure model; a
+cache or fast path in the implementation that breaks it shows up in the `hist` correspondence stream. -/
+theorem history_independent (pre post : List Call) (c : Call) :
+    (runHistory (pre ++ c :: post))[pre.length]? = some (answer c) := by
+  simp [runHistory]
+
+/-- A blob accepted under the matching key is still rejected, with ValueError, when it is presented
+afterwards with a key that does not decrypt it. -/
+theorem wrong_key_after_right_key_rejected (keyA keyB : Crypto) (hB : CryptoLaws keyB) (blob : Bytes)
+    (m : Metadata) (hA : decryptMetadata keyA blob = .ok m)
+    (hfail : (∃ e, keyB.rsaDec blob = .error e) ∨ keyB.rsaDec blob = .ok none ∨ keyB.rsaDec blob = .ok (some [])) :
+    runHistory [.decrypt keyA blob, .decrypt keyB blob, .decrypt keyA blob] =
+      [.metadata (.ok m), .metadata (.error .valueError), .metadata (.ok m)] := by
+  simp [runHistory, answer, hA, undecryptable_rejected keyB hB blob hfail]
+
+/-- Encrypting the same metadata object again recomputes the same size: `sized` is idempotent, and
+after the info string is replaced the size follows it. -/
+theorem sized_idempotent (m m' : Metadata) (info : Bytes) (hw : InWidth m) (haes : m.aes_rand.length = 16)
+    (hsz : 51 + m.info.length < 2 ^ 32) (hsz2 : 51 + info.length < 2 ^ 32) (h : sized m = .ok m') :
+    sized m' = .ok m' ∧ sized { m' with info := info } = .ok { m with size := 51 + info.length, info := info } := by
+  obtain ⟨rfl, _⟩ := size_consistent m m' hw haes h
+  have hw' := inWidth_setSize m (51 + m.info.length) hw hsz
+  have hw2 : InWidth { m with size := 51 + m.info.length, info := info } := by
+    rw [inWidth_iff] at hw' ⊢; exact hw'
+  constructor
+  · simp only [sized, dumps_ok _ hw']
+    rw [rawDumps_length16 { m with size := 51 + m.info.length } haes]
+    have : 59 + m.info.length - 8 = 51 + m.info.length := by omega
+    simp only [this]
+  · simp only [sized, dumps_ok _ hw2]
+    rw [rawDumps_length16 { m with size := 51 + m.info.length, info := info } haes]
+    have : 59 + info.length - 8 = 51 + info.length := by omega
+    simp only [this]
+
 /-! ### the laws are satisfiable -/
 
 theorem toy_laws (k : Nat) : CryptoLaws (toyCrypto k) where
